@@ -136,15 +136,80 @@ func parseAsm(path, fn string, consts map[string]int64) (*asmFunc, error) {
 	labelAt := map[string]int{}
 	in := false
 	curLabel, ord := "entry", 0
-	for ln, raw := range strings.Split(string(b), "\n") {
-		line := raw
-		if i := strings.Index(line, "//"); i >= 0 {
-			line = line[:i]
+	// logical lines: comments stripped, backslash continuations joined, object-like
+	// #define macros expanded (statements separated by ';'); anything else that
+	// starts with '#' (includes, conditionals) is skipped as before
+	type lline struct {
+		ln   int
+		text string
+	}
+	var lines []lline
+	macros := map[string][]string{}
+	{
+		rawLines := strings.Split(string(b), "\n")
+		for i := 0; i < len(rawLines); i++ {
+			ln := i
+			line := rawLines[i]
+			if k := strings.Index(line, "//"); k >= 0 {
+				line = line[:k]
+			}
+			for strings.HasSuffix(strings.TrimRight(line, " \t"), "\\") && i+1 < len(rawLines) {
+				line = strings.TrimSuffix(strings.TrimRight(line, " \t"), "\\")
+				i++
+				nx := rawLines[i]
+				if k := strings.Index(nx, "//"); k >= 0 {
+					nx = nx[:k]
+				}
+				line += " " + nx
+			}
+			line = strings.TrimSpace(line)
+			if line == "" {
+				continue
+			}
+			if strings.HasPrefix(line, "#define") {
+				f := strings.Fields(strings.TrimPrefix(line, "#define"))
+				if len(f) == 0 {
+					continue
+				}
+				name := f[0]
+				if strings.Contains(name, "(") {
+					macros[name[:strings.Index(name, "(")]] = nil // function-like: not supported, fails closed when used
+					continue
+				}
+				body := strings.TrimSpace(strings.TrimPrefix(strings.TrimSpace(strings.TrimPrefix(line, "#define")), name))
+				var stmts []string
+				for _, st := range strings.Split(body, ";") {
+					if st = strings.TrimSpace(st); st != "" {
+						stmts = append(stmts, st)
+					}
+				}
+				macros[name] = stmts
+				continue
+			}
+			if strings.HasPrefix(line, "#") {
+				continue
+			}
+			for _, st := range strings.Split(line, ";") {
+				st = strings.TrimSpace(st)
+				if st == "" {
+					continue
+				}
+				first := strings.Fields(st)[0]
+				if body, isM := macros[first]; isM && st == first {
+					if body == nil {
+						return nil, fmt.Errorf("%s:%d: function-like macro %s is not supported", path, ln+1, first)
+					}
+					for _, x := range body {
+						lines = append(lines, lline{ln, x})
+					}
+					continue
+				}
+				lines = append(lines, lline{ln, st})
+			}
 		}
-		line = strings.TrimSpace(line)
-		if line == "" || strings.HasPrefix(line, "#") {
-			continue
-		}
+	}
+	for _, ll := range lines {
+		ln, line := ll.ln, ll.text
 		if strings.HasPrefix(line, "TEXT") {
 			in = strings.Contains(line, "·"+fn+"(SB)")
 			continue
